@@ -59,25 +59,32 @@ func (s *state) clone() *state {
 	return c
 }
 
+type shortPanic struct {
+	name  string
+	pos   token.Pos
+	trace []string
+}
+
 type exit struct {
 	st  *state
 	pos token.Pos
 }
 
 type interp struct {
-	info      *types.Info
-	fd        *ast.FuncDecl
-	lwork     types.Object
-	work      types.Object
-	params    map[types.Object]bool
-	assigned  map[types.Object]bool
-	exits     []exit
-	fresh     int
-	states    int
-	over      bool
-	breakSts  []*state // states that left the innermost switch by break
-	short     map[string]string
-	usedShort map[string]bool
+	info        *types.Info
+	fd          *ast.FuncDecl
+	lwork       types.Object
+	work        types.Object
+	params      map[types.Object]bool
+	assigned    map[types.Object]bool
+	exits       []exit
+	fresh       int
+	states      int
+	over        bool
+	breakSts    []*state // states that left the innermost switch by break
+	short       map[string]string
+	shortPanics []shortPanic
+	usedShort   map[string]bool
 }
 
 const maxStates = 200000
@@ -99,7 +106,8 @@ func isIdentNamed(e ast.Expr, name string) bool {
 func Run(cfg core.Config, scope core.Scope, exempt map[string]string) *core.Result {
 	res := core.NewResult("WORKSIZE")
 	res.Rules = append(res.Rules, "WORKSIZE.min: on every path returning in query mode (lwork == -1) the value stored to work[0] is >= the minimum lwork the routine enforces with panic(badLWork) (path-wise symbolic interpretation of the prologue, max/min-of-polynomials normal form, coefficient-wise dominance)",
-		"WORKSIZE.set: every query-mode return is preceded by a store to work[0]")
+		"WORKSIZE.set: every query-mode return is preceded by a store to work[0]",
+		"WORKSIZE.querylen: no operand length panic (short*/badLen* other than shortWork) is reachable in query mode")
 	res.Configs = append(res.Configs, cfg.String())
 	pkgs, err := core.Load(cfg, scope.Patterns...)
 	if err != nil {
@@ -136,12 +144,25 @@ func Run(cfg core.Config, scope core.Scope, exempt map[string]string) *core.Resu
 				}
 				before := len(res.Findings)
 				analyse(res, pkg.PkgPath, info, fd, lwork, work, params)
-				if _, ok := exempt[fd.Name.Name]; ok {
-					if len(res.Findings) == before {
-						res.Brokenf("WORKSIZE: stale exemption %s (nothing to suppress)", fd.Name.Name)
+				kept := res.Findings[:before:before]
+				used := map[string]bool{}
+				for _, f := range res.Findings[before:] {
+					ek := fd.Name.Name
+					if f.Rule == "WORKSIZE.querylen" {
+						ek += "." + f.Key[strings.LastIndex(f.Key, "|")+1:]
 					}
-					res.Count("exempt_findings", len(res.Findings)-before)
-					res.Findings = res.Findings[:before]
+					if _, ok := exempt[ek]; ok {
+						used[ek] = true
+						res.Count("exempt_findings", 1)
+						continue
+					}
+					kept = append(kept, f)
+				}
+				res.Findings = kept
+				for ek := range exempt {
+					if (ek == fd.Name.Name || strings.HasPrefix(ek, fd.Name.Name+".")) && !used[ek] {
+						res.Brokenf("WORKSIZE: stale exemption %s (nothing to suppress)", ek)
+					}
 				}
 			}
 		}
@@ -183,8 +204,20 @@ func analyse(res *core.Result, pkgPath string, info *types.Info, fd *ast.FuncDec
 		res.Brokenf("WORKSIZE: %s: more than %d symbolic states", name, maxStates)
 		return
 	}
-	hasMin := false
 	seen := map[string]bool{}
+	res.Count("query_mode_prologues", 1)
+	res.Obligations++
+	for _, sp := range ip.shortPanics {
+		key := fmt.Sprintf("WORKSIZE.querylen|%s|%s", name, sp.name)
+		if seen[key] {
+			continue
+		}
+		seen[key] = true
+		res.Add(core.Finding{Rule: "WORKSIZE.querylen", Key: key, Pos: core.Pos(sp.pos), Func: name,
+			Msg:  fmt.Sprintf("panic(%s) is reachable in a workspace query (lwork == -1): a query must accept operands that are not allocated yet (the drivers query their subroutines with nil slices), so operand length checks belong after the query return", sp.name),
+			Path: sp.trace})
+	}
+	hasMin := false
 	for _, e := range ip.exits {
 		s := e.st
 		if s.lost != "" {
@@ -292,6 +325,11 @@ func (ip *interp) exec(s ast.Stmt, sts []*state) []*state {
 		}
 		if id, ok := call.Fun.(*ast.Ident); ok && id.Name == "panic" {
 			if _, b := ip.info.Uses[id].(*types.Builtin); b {
+				if len(call.Args) == 1 {
+					if a, ok := call.Args[0].(*ast.Ident); ok && (strings.HasPrefix(a.Name, "short") || strings.HasPrefix(a.Name, "badLen")) && a.Name != "shortWork" && len(sts) > 0 {
+						ip.shortPanics = append(ip.shortPanics, shortPanic{a.Name, call.Pos(), sts[0].trace})
+					}
+				}
 				return nil
 			}
 		}
